@@ -410,6 +410,48 @@ impl assets_manager::Asset for PlainSeed {
     type Loader = PlainLoader;
 }
 
+/// The value type has no drop glue (`u32`) while the loaded seed has: a cell that leaves the cache, initialised or
+/// not, still drops its seed exactly once.
+fn probe_cell_plain_value<U: Probe + assets_manager::Asset>(rep: &mut Report) {
+    use assets_manager::OnceInitCell;
+    let cu = U::ctr();
+    let u0 = (cu.0.load(AO::SeqCst), cu.1.load(AO::SeqCst));
+    let made = || cu.0.load(AO::SeqCst) - u0.0;
+    let dropped = || cu.1.load(AO::SeqCst) - u0.1;
+    let mut bad = |what: &str| rep.mismatch(json!({"what": what, "type": format!("OnceInitCell<{}, u32>", U::NAME)}));
+    let src = MemSource::new(false);
+    for id in ["a", "b", "c", "d", "e"] {
+        src.put(id, "x", b"v1");
+    }
+    {
+        let mut cache = AssetCache::with_source(src.clone());
+        for id in ["a", "b", "c", "d", "e"] {
+            let _ = cache.load::<OnceInitCell<U, u32>>(id).unwrap();
+        }
+        // a: removed uninitialised; b: initialised then removed; c: taken uninitialised; d: cleared; e: dropped with the cache
+        if !cache.remove::<OnceInitCell<U, u32>>("a") || dropped() != 1 { bad("removing an uninitialised cell did not drop its seed exactly once"); }
+        {
+            let h = cache.load::<OnceInitCell<U, u32>>("b").unwrap();
+            let _ = h.read().get_or_init(|_u: &mut U| 7u32);
+        }
+        if dropped() != 2 { bad("initialising a cell did not drop its seed exactly once"); }
+        let _ = cache.remove::<OnceInitCell<U, u32>>("b");
+        if dropped() != 2 { bad("removing an initialised cell dropped a seed again"); }
+        let t = cache.take::<OnceInitCell<U, u32>>("c");
+        if dropped() != 2 { bad("take dropped the seed of the cell it returned"); }
+        drop(t);
+        if dropped() != 3 { bad("a taken uninitialised cell did not drop its seed exactly once"); }
+        let o = cache.load_owned::<OnceInitCell<U, u32>>("c").unwrap();
+        drop(o);
+        if made() != 6 || dropped() != 4 { bad("an owned uninitialised cell did not drop its seed exactly once"); }
+        cache.clear();
+        if dropped() != 6 { bad("clear did not drop the seeds of the uninitialised cells"); }
+        let _ = cache.load::<OnceInitCell<U, u32>>("e").unwrap();
+    }
+    if made() != 7 || dropped() != 7 { bad("after the cache is gone not every seed was dropped exactly once"); }
+    rep.cases += 1;
+}
+
 fn probe_cell_plain(rep: &mut Report) {
     use assets_manager::OnceInitCell;
     let ch = Heap::ctr();
@@ -468,6 +510,9 @@ pub fn c13_types(_args: &[String]) {
     probe_cell::<OneByte>(&mut rep);
     probe_cell::<Align64>(&mut rep);
     probe_cell_plain(&mut rep);
+    probe_cell_plain_value::<Zst>(&mut rep);
+    probe_cell_plain_value::<OneByte>(&mut rep);
+    probe_cell_plain_value::<Heap>(&mut rep);
     // type erasure: (stored type, requested type) pairs
     let src = MemSource::new(false);
     src.put("a", "x", b"v1");
@@ -610,7 +655,46 @@ pub fn c02_types(args: &[String]) {
     }
     let _ = std::panic::take_hook();
     long_ids(&mut rep);
+    borrowed_ids(&mut rep, caches);
     rep.print();
+}
+
+/// Look-ups made with the id of an existing entry AS STORED (same allocation: `handle.id()`), for the other
+/// types: identity of the id's bytes must not make two keys equal.
+fn borrowed_ids(rep: &mut Report, scale: usize) {
+    let src = MemSource::new(false);
+    std::panic::set_hook(Box::new(|_| {}));
+    let mut hits: Vec<String> = Vec::new();
+    for round in 0..(80 * scale.max(1)) {
+        rep.cases += 1;
+        let cache = AssetCache::without_hot_reloading(src.clone());
+        let id = cache.get_or_insert::<Many<0>>("borrowed-key", Many(0)).id().clone();
+        macro_rules! probe {
+            ($cache:ident; $($i:literal)*) => {{
+                $(
+                    if $i != 0 {
+                        rep.checks += 1;
+                        let r = std::panic::catch_unwind(std::panic::AssertUnwindSafe(|| {
+                            ($cache.contains::<Many<$i>>(&id), $cache.get_cached::<Many<$i>>(&id).is_some())
+                        }));
+                        match r {
+                            Ok((false, false)) => {}
+                            Ok(x) => hits.push(format!("cache {round}: type #{} sees the entry of type #0: contains / get_cached = {x:?}", $i)),
+                            Err(_) => hits.push(format!("cache {round}: looking type #{} up with the stored id panicked", $i)),
+                        }
+                    }
+                )*
+            }};
+        }
+        many!(probe, cache);
+        if hits.len() > 5 {
+            break;
+        }
+    }
+    let _ = std::panic::take_hook();
+    if !hits.is_empty() {
+        rep.mismatch(json!({"what":"a look-up made with the stored id of an entry finds it under another type","first_anomalies":hits.iter().take(4).collect::<Vec<_>>(),"anomalies":hits.len()}));
+    }
 }
 
 /// The map laws for ids of every length class (short, around the sizes where a hash or a
@@ -838,6 +922,49 @@ where
     }
 }
 
+/// A guard held across a reload pins the value and the reload id whatever the size of the value (also when the
+/// value would fit a single store).
+fn pod_guard_case<T: Copy + PartialEq + std::fmt::Debug + Send + Sync + 'static, const N: usize>(rep: &mut Report)
+where
+    Pod<T, N>: assets_manager::Asset,
+    PodLoader: assets_manager::loader::Loader<Pod<T, N>>,
+{
+    rep.cases += 1;
+    let src = MemSource::new(true);
+    src.st.lock().unwrap().trace_reads = false;
+    src.put("a", "x", b"v1");
+    let cache: &'static AssetCache<MemSource> = Box::leak(Box::new(AssetCache::with_source(src.clone())));
+    let h = cache.load::<Pod<T, N>>("a").unwrap();
+    let ready = std::sync::Arc::new(std::sync::Barrier::new(2));
+    let r2 = ready.clone();
+    let reader = std::thread::spawn(move || {
+        let g = h.read();
+        let before = g.0;
+        let rid = h.last_reload_id();
+        r2.wait();
+        // the writer needs the entry: it can only get it when this guard goes
+        std::thread::sleep(std::time::Duration::from_millis(60));
+        let moved = g.0[..] != before[..] || h.last_reload_id() != rid;
+        drop(g);
+        moved
+    });
+    ready.wait();
+    src.put("a", "x", b"v2");
+    src.send(&[OwnedDirEntry::File("a".into(), "x".into())]);
+    let t0 = std::time::Instant::now();
+    let first = h.copied();
+    while h.copied().0[..] == first.0[..] && t0.elapsed() < std::time::Duration::from_secs(3) {
+        cache.hot_reload();
+        std::thread::sleep(std::time::Duration::from_micros(300));
+    }
+    let moved = reader.join().unwrap_or(true);
+    rep.checks += 1;
+    if moved {
+        rep.mismatch(json!({"what":"the value or the reload id changed behind a live read guard","element_type":std::any::type_name::<T>(),"elements":N,
+            "bytes":std::mem::size_of::<Pod<T, N>>()}));
+    }
+}
+
 /// `amv c07-pods`: reload inline values of 1 .. 4100 bytes and alignments 1, 2, 4, 8.
 pub fn c07_pods(_args: &[String]) {
     let mut rep = Report::default();
@@ -848,6 +975,13 @@ pub fn c07_pods(_args: &[String]) {
     sweep!(u16; 1, 2, 3, 4, 5, 7, 9, 15, 17, 33, 50, 2049);
     sweep!(u32; 1, 2, 3, 5, 7, 9, 17, 33, 1025);
     sweep!(u64; 1, 2, 3, 513);
+    pod_guard_case::<u8, 1>(&mut rep);
+    pod_guard_case::<u16, 1>(&mut rep);
+    pod_guard_case::<u32, 1>(&mut rep);
+    pod_guard_case::<u64, 1>(&mut rep);
+    pod_guard_case::<u8, 8>(&mut rep);
+    pod_guard_case::<u64, 2>(&mut rep);
+    pod_guard_case::<u8, 100>(&mut rep);
     pod_case::<u8, 13>(&mut rep, true);
     pod_case::<u16, 5>(&mut rep, true);
     pod_case::<u32, 3>(&mut rep, true);
